@@ -223,11 +223,13 @@ func VerifC08_Strings() {
 	if vrt.Thorough() {
 		limit = 0x250
 	}
-	vrt.Bound("symbolic-rune-below-limit-plus-8-boundary-code-points", int(limit))
-	if k := vrt.Choice("rune-class", 9); k == 0 {
+	vrt.Bound("symbolic-rune-below-limit-plus-11-sampled-code-points", int(limit))
+	if k := vrt.Choice("rune-class", 12); k == 0 {
 		vrt.Assume(vrt.And(r >= 0, r < limit))
 	} else {
-		r = []rune{0x2028, 0xFEFF, 0xFFFD, 0x10000, 0x10FFFF, 0xD7FF, 0xE000, 0x1F600}[k-1]
+		// separators, BOM, replacement character, plane boundaries, surrogate neighbours, an
+		// emoji, and a non-ASCII letter, digit and space (identifier / whitespace look-alikes)
+		r = []rune{0x2028, 0xFEFF, 0xFFFD, 0x10000, 0x10FFFF, 0xD7FF, 0xE000, 0x1F600, 0xE9, 0x663, 0xA0}[k-1]
 	}
 	s := types.String("a" + string(r))
 	var n internalast.Node
